@@ -8,6 +8,7 @@ from typing import TYPE_CHECKING, cast
 from ..community import Community, CommunitySettings
 from ..keyvault.crypto import default_eccrypto
 from ..lazy_community import PacketDecodingError, lazy_wrapper, lazy_wrapper_unsigned, retrieve_cache
+from ..messaging.interfaces.udp.endpoint import UDPv4Address
 from ..messaging.payload import IntroductionRequestPayload, IntroductionResponsePayload, NewIntroductionResponsePayload
 from ..messaging.payload_headers import BinMemberAuthenticationPayload, GlobalTimeDistributionPayload
 from ..messaging.serialization import PackError, Serializable
@@ -151,7 +152,8 @@ class DiscoveryCommunity(Community):
         introduction = None
         if introduce_to:
             peers = self.network.verified_peers
-            matches = [p for p in peers if p.mid == introduce_to]
+            # This old-style response can only carry IPv4 addresses.
+            matches = [p for p in peers if p.mid == introduce_to and isinstance(p.address, UDPv4Address)]
             introduction = matches[0] if matches else None
         packet = self.create_introduction_response(payload.destination_address, source_address, payload.identifier,
                                                    introduction=introduction, new_style=False)
